@@ -537,6 +537,12 @@ def scenario_tags(obs: 'Observer'):
             inst = p.instances.get(f'inst{ws[4]}')
             if inst is not None and inst['state'] in ('inactive', 'deleted') and (k[0], k[1], att) in obs.cur.attempts:
                 obs.tag('attempt-first-recorded-on-dead-instance')
+        if ws[0] == 'creating' and rec is None and o['state'] == 'Ready' and not o['always_run']:
+            canc = [a for a in p.anc.get((k[0], o['job_group_id']), []) if (k[0], a) in p.cancelled]
+            if canc and 0 not in canc:
+                obs.tag('creating-of-ready-job-under-cancelled-non-root-group')
+            elif canc:
+                obs.tag('creating-of-ready-job-under-cancelled-root-group')
         if ws[0] == 'schedule' and o['state'] == 'Creating' and o['attempt_id'] == att:
             obs.tag('schedule-of-creating-job')
             if not o['always_run'] and p.group_cancelled(k[0], o['job_group_id']):
@@ -606,6 +612,20 @@ def c04(obs: Observer):
                 return ('job-started-on-dead-instance', f'job {k} became {j["state"]} with attempt {j["attempt_id"]} on instance '
                                                         f'{a["instance_name"] if a else None} which is {inst["state"] if inst else "unknown"}: nothing will '
                                                         f'ever report or reset it')
+    for k, j in v.jobs.items():
+        if j['state'] in ('Running', 'Creating') and j['attempt_id'] is not None:
+            a = v.attempts.get((k[0], k[1], j['attempt_id']))
+            inst = v.instances.get(a['instance_name']) if a and a['instance_name'] else None
+            if inst is not None and inst['state'] not in ('pending', 'active'):
+                if obs.op.startswith('deactivate'):
+                    obs.tag('deactivate-of-instance-with-started-jobs')
+                return ('started-job-left-on-dead-instance', f'job {k} is {j["state"]} with current attempt {j["attempt_id"]} on instance '
+                                                            f'{a["instance_name"]}, which is {inst["state"]} after `{obs.op}`: nothing will reset it')
+    if obs.op.startswith('deactivate'):
+        dead = f'inst{obs.op.split()[1]}'
+        if any(o['state'] == 'Creating' and (a0 := p.attempts.get((k[0], k[1], o['attempt_id']))) and a0['instance_name'] == dead and
+               p.instances.get(dead, {}).get('state') == 'pending' for k, o in p.jobs.items()):
+            obs.tag('deactivate-of-pending-instance-with-creating-job')
     ab = abandoned_attempt(p, v)
     if ab is not None:
         # (commit_batch_update of a non-first update rewrites the state of every job of the update, also of one that already runs)
@@ -1135,6 +1155,19 @@ def c41(obs: Observer):
             return (cls, f'the scheduler\'s SELECT returns job {(b, j)} of update {job["update_id"]}, which is not committed')
     if any(not u['committed'] for u in v.updates.values()) and v.jobs:
         obs.tag('uncommitted-update-present')
+    # an update that is merely open (created, not committed) has no effect on the completion of the committed part
+    for b, bt in v.batches.items():
+        open_ups = [u for (bb, _), u in v.updates.items() if bb == b and not u['committed']]
+        cj = [j for j in v.jobs.values() if j['batch_id'] == b and v.committed(b, j['update_id'])]
+        if open_ups and cj and len(cj) == bt['n_jobs'] and all(j['state'] in TERMINAL for j in cj):
+            if any(u['n_jobs'] > 0 for u in open_ups):
+                obs.tag('all-committed-jobs-terminal-while-an-update-with-jobs-is-open')
+            if bt['state'] != 'complete' and not bt['deleted']:
+                empty = [u['update_id'] for u in open_ups if not any(j['batch_id'] == b and j['update_id'] == u['update_id'] for j in v.jobs.values())]
+                cls = 'open-update-keeps-committed-batch-from-completing' if len(empty) == len(open_ups) else \
+                    _name_class(obs, 'batch-not-complete-although-all-committed-jobs-terminal')
+                return (cls, f'batch {b}: all {len(cj)} committed jobs are terminal (n_jobs = {bt["n_jobs"]}) but its state is {bt["state"]} while '
+                             f'update(s) {[u["update_id"] for u in open_ups]} are open (not committed)')
     return None
 
 
